@@ -3,9 +3,12 @@ import GaeaVerif.Model.Go
   C35 — model of the client allow-list of a namespace.
 
   Gaea code (transliterated, same names):
-    util/ip.go                 ParseIPInfo, IPInfo.Match
+    util/ip.go                 ParseIPInfo, IPInfo.Match, IPInfo.containsMapped,
+                               parseAllowIps (the comma-separated form; no callers)
     proxy/server/namespace.go  parseAllowIps, Namespace.IsClientIPAllowed
-    proxy/server/session.go    Session.IsAllowConnect (host of the remote address)
+    proxy/server/session.go    Session.IsAllowConnect (host of the remote address), newSession (the
+                               connection's dynamic type), the allow check of Session.Handshake
+    proxy/server/server.go     Server.onConn up to the end of the handshake
   Go standard library (package net, trusted; transliterated from go1.23
   src/net/ip.go so that the glue above can be run and reasoned about):
     IP.To4, IP.Equal, IP.Mask, CIDRMask, networkNumberAndMask, IPNet.Contains,
@@ -169,9 +172,31 @@ def parseIPInfo (pa : Bytes → Option Addr) (v : Bytes) : Option IPInfo :=
     | some ip => some { isIPNet := false, ip := ip, ipNet := { ip := [], mask := [] } }
     | none => none
 
-/-- `IPInfo.Match`. -/
-def IPInfo.match (t : IPInfo) (ip : Bytes) : R Bool :=
+/-- `IPInfo.Match` as it was before the fix: commit of C35 (`Contains` alone);
+    kept for the pinned witness of the old behaviour. -/
+def IPInfo.matchPinned (t : IPInfo) (ip : Bytes) : R Bool :=
   if t.isIPNet then contains t.ipNet ip else .ok (ipEqual t.ip ip)
+
+/-- `IPInfo.containsMapped` (fix: commit of C35): an IPv4 / IPv4-mapped client
+    is compared in the 16-byte form with a network whose address and mask have
+    16 bytes.  `ip4.To16()` is `v4InV6Prefix ++ ip4`; the loop indexes
+    `ipNet.IP[i]` and `ipNet.Mask[i]` for `i < 16` (`containsLoop`). -/
+def IPInfo.containsMapped (t : IPInfo) (ip : Bytes) : R Bool :=
+  match to4 ip with
+  | none => .ok false
+  | some ip4 =>
+    if t.ipNet.ip.length ≠ 16 ∨ t.ipNet.mask.length ≠ 16 then .ok false
+    else containsLoop t.ipNet.ip t.ipNet.mask (v4InV6Prefix ++ ip4)
+
+/-- `IPInfo.Match`: `t.ipNet.Contains(ip) || t.containsMapped(ip)` for a block. -/
+def IPInfo.match (t : IPInfo) (ip : Bytes) : R Bool :=
+  if t.isIPNet then
+    match contains t.ipNet ip with
+    | .ok true => .ok true
+    | .ok false => t.containsMapped ip
+    | .fail => .fail
+    | .panic => .panic
+  else .ok (ipEqual t.ip ip)
 
 /-! ### strings.TrimSpace -/
 
@@ -235,6 +260,14 @@ def matchAny : List IPInfo → Bytes → R Bool
 def isClientIPAllowed (allowips : List IPInfo) (clientIP : Bytes) : R Bool :=
   if allowips.length = 0 then .ok true else matchAny allowips clientIP
 
+/-- `strings.Split(s, sep)` for a one-byte separator. -/
+def splitOn (sep : UInt8) : Bytes → List Bytes
+  | [] => [[]]
+  | c :: cs =>
+    match splitOn sep cs with
+    | [] => [[]]
+    | p :: ps => if c = sep then [] :: p :: ps else (c :: p) :: ps
+
 /-! ### proxy/server/session.go -/
 
 def indexOf (c : UInt8) : Bytes → Option Nat
@@ -275,6 +308,52 @@ def isAllowConnect (pa : Bytes → Option Addr) (allowips : List IPInfo) (remote
     | none => clientHost
   let clientIP := (parseIP pa clientHost).getD []
   isClientIPAllowed allowips clientIP
+
+/-- Dynamic type of the connection the listener hands out: `*net.TCPConn`
+    (proto_type tcp/tcp4/tcp6) or `*net.UnixConn` (proto_type unix). -/
+inductive ConnKind where
+  | tcp
+  | unix
+  deriving Repr, DecidableEq
+
+/-- What a client with valid credentials is told by `Server.onConn`: the OK
+    packet, error 1045 "ip not allowed to connect", or nothing because the
+    connection goroutine panicked with no recover above it (the process ends). -/
+inductive Served where
+  | ok
+  | denied
+  | crash
+  deriving Repr, DecidableEq
+
+/-- `Server.onConn` → `newSession` → `Session.Handshake` for a client whose
+    credentials are right: `newSession` runs before `onConn` installs its
+    `recover`; the allow check decides between the OK packet and error 1045. -/
+def onConn (pa : Bytes → Option Addr) (allowips : List IPInfo) (_kind : ConnKind) (remote : Bytes) : R Served :=
+  -- if tcpConn, ok := co.(*net.TCPConn); ok { tcpConn.SetNoDelay(true) }   (fix: commit of C35)
+  match isAllowConnect pa allowips remote with
+  | .ok true => .ok .ok
+  | .ok false => .ok .denied
+  | .fail => .fail
+  | .panic => .panic     -- inside Handshake: recovered by onConn's deferred recover
+
+/-- The same before the fix: `tcpConn := co.(*net.TCPConn)` unconditionally. -/
+def onConnPinned (pa : Bytes → Option Addr) (allowips : List IPInfo) (kind : ConnKind) (remote : Bytes) : R Served :=
+  match kind with
+  | .unix => .ok .crash
+  | .tcp => onConn pa allowips kind remote
+
+/-- `net.JoinHostPort`, the text `(*net.TCPAddr).String()` produces from the
+    host (`ip.String()`, `%zone` appended) and the port. -/
+def joinHostPort (host port : Bytes) : Bytes :=
+  if host.contains 0x3a then [0x5b] ++ host ++ [0x5d, 0x3a] ++ port
+  else host ++ [0x3a] ++ port
+
+/-! ### util/ip.go `parseAllowIps` (comma-separated text; called by nothing) -/
+
+/-- `util.parseAllowIps`: an entry that does not parse is *dropped*. -/
+def utilParseAllowIps (pa : Bytes → Option Addr) (allowIpsStr : Bytes) : List IPInfo :=
+  if allowIpsStr.length = 0 then []
+  else (splitOn 0x2c allowIpsStr).filterMap fun ipStr => parseIPInfo pa (trimSpace ipStr)
 
 /-! ### Spec: what an allow-list means
 
@@ -360,13 +439,6 @@ def familyMatch (e : Entry) (c : Bytes) : Bool :=
   Follows go1.23 src/net/netip/netip.go: `parseIPv4Fields` (four decimal
   fields, no leading zero, ≤ 255) and `parseIPv6` (hex groups of ≤ 4 digits,
   one `::`, optional trailing dotted quad, zone after `%`). -/
-
-def splitOn (sep : UInt8) : Bytes → List Bytes
-  | [] => [[]]
-  | c :: cs =>
-    match splitOn sep cs with
-    | [] => [[]]
-    | p :: ps => if c = sep then [] :: p :: ps else (c :: p) :: ps
 
 def isDigit (c : UInt8) : Bool := 0x30 ≤ c && c ≤ 0x39
 
